@@ -1,6 +1,6 @@
 (* R instance of Model/Steps.v and its theorems. *)
 From Coq Require Import List Bool Arith Reals Lra Lia.
-From NV Require Import Base.Exn Model.FitCore Model.Steps Proofs.FitCoreP.
+From NV Require Import Base.Exn Model.FitCore Model.Steps Model.Poc Proofs.FitCoreP.
 Import ListNotations.
 Local Open Scope R_scope.
 
@@ -355,4 +355,86 @@ Proof.
   destruct (Req_dec (nth i l 0) (nth j l 0)) as [E|E]; [|lra].
   exfalso. assert (i = j); [|lia].
   apply (proj1 (NoDup_nth l 0) Hd); [lia | lia | exact E].
+Qed.
+
+(* ---- the exit test of the window-doubling loop ---------------------------------------- *)
+(* |sum d| = sum |d|  holds only if all d have one sign: applied to the differences of
+   neighbouring values it means the smoothed data are weakly monotone *)
+Definition ppart (x : R) : R := Rmax x 0.
+Definition npart (x : R) : R := Rmax (- x) 0.
+
+Lemma parts_split x : x = ppart x - npart x /\ Rabs x = ppart x + npart x /\
+                      0 <= ppart x /\ 0 <= npart x.
+Proof.
+  unfold ppart, npart, Rmax. destruct (Rle_dec x 0); destruct (Rle_dec (- x) 0);
+    unfold Rabs; destruct (Rcase_abs x); repeat split; lra.
+Qed.
+
+Lemma rsum_parts l : rsum l = rsum (map ppart l) - rsum (map npart l) /\
+                     rsum (map Rabs l) = rsum (map ppart l) + rsum (map npart l) /\
+                     0 <= rsum (map ppart l) /\ 0 <= rsum (map npart l).
+Proof.
+  induction l as [|x l [I1 [I2 [I3 I4]]]]; simpl; [repeat split; lra|].
+  destruct (parts_split x) as [H1 [H2 [H3 H4]]]. repeat split; lra.
+Qed.
+
+Lemma rsum_nonneg_zero l : (forall x, In x l -> 0 <= x) -> rsum l = 0 -> forall x, In x l -> x = 0.
+Proof.
+  induction l as [|y l IH]; intros Hp Hs x Hx; [contradiction|]. simpl in Hs.
+  assert (Hy : 0 <= y) by (apply Hp; left; reflexivity).
+  assert (Hl : 0 <= rsum l).
+  { clear -Hp. induction l as [|z l IH]; simpl; [lra|].
+    assert (0 <= z) by (apply Hp; right; left; reflexivity).
+    assert (0 <= rsum l); [|lra]. apply IH. intros w [Hw|Hw]; apply Hp; [left | right; right]; assumption. }
+  destruct Hx as [<-|Hx]; [lra|]. apply IH; [|lra | exact Hx].
+  intros z Hz. apply Hp. right. exact Hz.
+Qed.
+
+Theorem sum_abs_eq_one_sign l : Rabs (rsum l) = rsum (map Rabs l) ->
+  (forall x, In x l -> 0 <= x) \/ (forall x, In x l -> x <= 0).
+Proof.
+  intros H. destruct (rsum_parts l) as [H1 [H2 [H3 H4]]]. rewrite H1, H2 in H.
+  set (P := rsum (map ppart l)) in *. set (N := rsum (map npart l)) in *.
+  assert (HPN : N = 0 \/ P = 0).
+  { unfold Rabs in H. destruct (Rcase_abs (P - N)); [right | left]; lra. }
+  destruct HPN as [HN|HP].
+  - left. intros x Hx.
+    assert (Hz : npart x = 0).
+    { apply (rsum_nonneg_zero (map npart l)); [|exact HN | apply in_map; exact Hx].
+      intros y Hy. apply in_map_iff in Hy. destruct Hy as [z [<- _]]. apply parts_split. }
+    destruct (parts_split x) as [E [_ [Hp _]]]. lra.
+  - right. intros x Hx.
+    assert (Hz : ppart x = 0).
+    { apply (rsum_nonneg_zero (map ppart l)); [|exact HP | apply in_map; exact Hx].
+      intros y Hy. apply in_map_iff in Hy. destruct Hy as [z [<- _]]. apply parts_split. }
+    destruct (parts_split x) as [E [_ [_ Hn]]]. lra.
+Qed.
+
+(* differences of neighbouring values, and central differences (np.gradient) *)
+Fixpoint diffs (l : list R) : list R :=
+  match l with
+  | a :: ((b :: _) as t) => (b - a) :: diffs t
+  | _ => []
+  end.
+
+Lemma diffs_nonneg_monotone : forall l, (forall d, In d (diffs l) -> 0 <= d) ->
+  forall i, (S i < length l)%nat -> nth i l 0 <= nth (S i) l 0.
+Proof.
+  induction l as [|a l IH]; intros H i Hi; [simpl in Hi; lia|].
+  destruct l as [|b l]; [simpl in Hi; lia|]. destruct i as [|i].
+  - simpl. assert (0 <= b - a); [apply H; simpl; left; reflexivity | lra].
+  - change (nth (S i) (a :: b :: l) 0) with (nth i (b :: l) 0).
+    change (nth (S (S i)) (a :: b :: l) 0) with (nth (S i) (b :: l) 0).
+    apply IH; [|simpl in *; lia]. intros d Hd. apply H. simpl. right. exact Hd.
+Qed.
+
+(* the former exit test (np.gradient) accepted zigzagging data: all central
+   differences of this list are positive, yet it is not monotone *)
+Definition zigzag : list R := [0; 1; 1/2; 3/2; 1; 2].
+Lemma zigzag_gradient_positive :
+  Forall (fun g => 0 < g) (np_gradient R Rminus Rdiv 2 zigzag) /\
+  nth 2 zigzag 0 < nth 1 zigzag 0.
+Proof.
+  unfold zigzag. simpl. split; [|lra].
+  repeat constructor; lra.
 Qed.
